@@ -181,7 +181,8 @@ func IsNilConst(v ssa.Value) bool {
 func Returns(fn *ssa.Function) []*ssa.Return {
 	var out []*ssa.Return
 	for _, b := range fn.Blocks {
-		if len(b.Instrs) == 0 {
+		if len(b.Instrs) == 0 || b == fn.Recover {
+			// fn.Recover is the synthetic block reached only after a deferred call recovered a panic
 			continue
 		}
 		if r, ok := b.Instrs[len(b.Instrs)-1].(*ssa.Return); ok {
@@ -390,4 +391,37 @@ func reaches(from, to, avoid *ssa.BasicBlock) bool {
 		stack = append(stack, x.Succs...)
 	}
 	return false
+}
+
+// ResolvedResults returns the values a Return yields. go/ssa spills results into hidden cells when the function has
+// a defer (the Return then loads them after `rundefers`); this follows such loads back to the value stored in the same block.
+func ResolvedResults(ret *ssa.Return) []ssa.Value {
+	out := make([]ssa.Value, len(ret.Results))
+	for i, rv := range ret.Results {
+		out[i] = rv
+		u, ok := rv.(*ssa.UnOp)
+		if !ok || u.Op != token.MUL {
+			continue
+		}
+		al, ok := u.X.(*ssa.Alloc)
+		if !ok {
+			continue
+		}
+		// last store to the cell in the return's block (or in its unique predecessor chain)
+		for b := ret.Block(); b != nil; {
+			found := false
+			for k := len(b.Instrs) - 1; k >= 0; k-- {
+				if st, ok := b.Instrs[k].(*ssa.Store); ok && st.Addr == ssa.Value(al) {
+					out[i] = st.Val
+					found = true
+					break
+				}
+			}
+			if found || len(b.Preds) != 1 {
+				break
+			}
+			b = b.Preds[0]
+		}
+	}
+	return out
 }
